@@ -45,7 +45,7 @@ func planFor(prop, tier string) plan {
 		if thorough {
 			return plan{batch: 1, secs: secs, detSample: 48, watchdog: "180s"}
 		}
-		return plan{runs: q(20000), batch: 1, detSample: 32, watchdog: "60s"}
+		return plan{runs: q(20000), batch: 1, detSample: 32, watchdog: "150s"}
 	case "C16":
 		if thorough {
 			return plan{batch: 8, race: true, secs: secs, extraSecs: secs / 2, detSample: 48, watchdog: "180s"}
